@@ -445,3 +445,41 @@ def get_key(call: ast.Call) -> Optional[str]:
             and isinstance(call.args[0].value, str):
         return call.args[0].value
     return None
+
+
+def alpha(node: ast.AST, fn: Optional[ast.AST] = None) -> str:
+    """source text of ``node`` with every *local* name (locals of ``fn`` that are not parameters, plus comprehension and
+    lambda variables inside ``node``) replaced by _1, _2, ... in order of appearance.  Two constructs that differ only in
+    the spelling of local variables get the same text; used for keys that must survive a rename (known findings)."""
+    import copy
+    bound = set()
+    if fn is not None:
+        a = fn.args
+        params = {x.arg for x in a.posonlyargs + a.args + a.kwonlyargs}
+        if a.vararg:
+            params.add(a.vararg.arg)
+        if a.kwarg:
+            params.add(a.kwarg.arg)
+        for n in ast.walk(fn):
+            if isinstance(n, ast.Name) and isinstance(n.ctx, (ast.Store, ast.Del)) and n.id not in params:
+                bound.add(n.id)
+    for n in ast.walk(node):
+        if isinstance(n, ast.Lambda):
+            bound |= {x.arg for x in n.args.args}
+        if isinstance(n, ast.comprehension):
+            bound |= {x.id for x in ast.walk(n.target) if isinstance(x, ast.Name)}
+    table: Dict[str, str] = {}
+
+    class T(ast.NodeTransformer):
+        def visit_Name(self, n):
+            if n.id in bound:
+                table.setdefault(n.id, f"_{len(table) + 1}")
+                return ast.copy_location(ast.Name(id=table[n.id], ctx=n.ctx), n)
+            return n
+
+        def visit_arg(self, n):
+            if n.arg in bound:
+                table.setdefault(n.arg, f"_{len(table) + 1}")
+                return ast.copy_location(ast.arg(arg=table[n.arg], annotation=None), n)
+            return n
+    return norm(T().visit(copy.deepcopy(node)))
